@@ -136,6 +136,8 @@ def check(ctx):
                 o.witness('pop0')
             else:
                 bad = 'a stored part is removed from a position other than the head'
+        elif role[0] == 'alias':
+            pass        # a local name for the list: its uses are reported as uses of the list (sa/inventory.py)
         else:
             bad = f'unrecognised use of the storage list ({role[0]})'
         if bad:
